@@ -206,6 +206,33 @@ def classify_verus(diags, wv):
     return failures, hard
 
 
+def refuted_by_the_step_harnesses(r, f, results):
+    """A failing P clause of a Verus unit is downgraded to UNDECIDED only when ALL of this holds: Kani step harnesses
+    tagged covered_by=<this unit> exist for the failing function (or its callers), every one of them ran to the end
+    in this run without a failure, hard error or crash, and no other unit of this run reports any failure that is not a
+    listed known finding.  Anything less (no such harness, one did not finish, any other failure) leaves it a violation."""
+    fn = str(f.get('fn') or '').split('::')[-1]
+    if not fn:
+        return False
+    fns = {fn} | set(registry.KANI_CALLERS.get(fn, []))
+    known = load_known()
+    ran = []
+    for r2 in results:
+        if r2 is r:
+            continue
+        unknown = [x for x in r2['failures'] if not any(k['ob'] == x['name'] for k in known)]
+        if r2.get('engine') != 'verus' and (unknown or r2['hard']):
+            return False
+        if r2.get('engine') == 'kani':
+            for h in r2.get('harnesses', []):
+                hfns = set(re.split(r'[+,]', (h.get('fn') or '').split('::')[-1].replace('{', '').replace('}', '')))
+                if h.get('covered_by') == r['unit'] and (hfns & fns):
+                    if h.get('failed') or h.get('status') not in ('Success', 'SUCCESS', 'success'):
+                        return False
+                    ran.append(h['name'])
+    return len(ran) > 0
+
+
 def verus_unit(unit, scratch, prop):
     """weave + verify + canary.  returns result dict."""
     spec = os.path.join(VERIF, 'contracts', unit + '.vspec')
@@ -442,7 +469,7 @@ def kani_crate(crate, prop, tier, scratch, only=None, clean_units=None):
         cov_unsat = [c for c in checks if c.get('status') in ('Unsatisfiable',) or (c.get('category') == 'cover' and c.get('status') == 'Unreachable')]
         hres = dict(name=meta['name'], full=hid, status=r.get('status'), time_s=round(r.get('duration_ms', 0) / 1000.0, 1),
                     checks=len(checks), failed=len(failed), kind=meta.get('kind', 'bounded'), bound=meta.get('bound', ''), fn=meta.get('fn', ''),
-                    props=meta.get('props'), covers_satisfied=len([c for c in checks if c.get('status') == 'Satisfied']),
+                    props=meta.get('props'), covered_by=meta.get('covered_by'), covers_satisfied=len([c for c in checks if c.get('status') == 'Satisfied']),
                     file=meta.get('file'), srcfile=meta.get('srcfile'))
         e = errs.get(hid)
         if e and e.get('exit_status') not in (None, 'properties_failed') and not failed:
@@ -788,7 +815,13 @@ def main():
             if k:
                 known_hits.append((f, k[0]))
                 continue
-            if f.get('cls') == 'P':
+            if f.get('cls') == 'P' and r.get('engine') == 'verus' and refuted_by_the_step_harnesses(r, f, results):
+                # Verus could not re-establish the clause on this code, but the Kani inductive-step harnesses of the very
+                # same function(s) (symbolic state, same assertions, run on demand because the unit failed) and the native
+                # stand-ins found no failing input: an undischarged obligation, not a violation (exit 2, never an alarm)
+                f = dict(f, desc=(f.get('msg') or '') + ' — Verus cannot discharge this clause on the present code; the Kani step harnesses of the same function(s) pass for every state of their windows and no stand-in fails: undecided')
+                undecided.append((r, f))
+            elif f.get('cls') == 'P':
                 violations.append((r, f))
             else:
                 undecided.append((r, f))
